@@ -2,6 +2,7 @@ import FstVerif.Proofs.Seek
 import FstVerif.Proofs.Wrappers
 import FstVerif.Proofs.EndToEnd
 import FstVerif.Proofs.Aut
+import FstVerif.Proofs.EofLift
 /-
 C04 — automaton search. Statements here; proofs in Proofs/Stream.lean and
 Proofs/Seek.lean. The automaton is a universally quantified variable
@@ -45,6 +46,108 @@ theorem C04_file (rows cols ty : Nat) (hty : ty < 2^64) (kvs : KV) (hs : SortedK
                         lowerOK min kv.1 && upperOK max kv.1 && A.accepts kv.1).map
                       fun kv => (kv.1, kv.2, A.run A.start kv.1))) :=
   E2E.e2e_search rows cols ty hty kvs hs hv hn
+
+/-! ### automata that override `accept_eof` (the hook `next_with` consults at the end of a non-empty key)
+
+`C04_search` assumes `noEof`. The theorems below drop that assumption: for an ARBITRARY
+automaton the stream yields the in-range keys accepted in the sense of `Aut.acceptsEof`
+(the hook's state decides for a non-empty key when the hook fires; the empty key never consults
+it — exactly what `StreamWithState::next_with` does), with the state reached BEFORE the hook.
+Proof: simulation with the hook-free automaton `eofLift A` over `σ × Bool` (Proofs/EofLift.lean). -/
+
+/-- the contract for an automaton with a hook: `can_match = false` rules out every later match,
+with or without the hook -/
+structure ContractEof (A : Aut σ) : Prop where
+  canSound : ∀ x, A.canMatch x = false →
+    ∀ w, A.isMatch (A.run x w) = false ∧ A.eofMatch (A.run x w) = false
+
+theorem C04_search_eof (A : Aut σ) (hA : ContractEof A) (hg : GoodStore s den) (hr : Represents acc s)
+    (root : Nat) (hroot : root = 0 ∨ ∃ n, (root, n) ∈ s) (min max : Bound) :
+    ∃ s0, streamNew acc A root min max = some s0 ∧
+    ∃ N, ∀ fuel, N ≤ fuel →
+      streamCollect acc A root fuel s0 [] =
+        some (((den root).filter fun kv => lowerOK min kv.1 && upperOK max kv.1 && A.acceptsEof kv.1).map
+                fun kv => (kv.1, kv.2, A.run A.start kv.1)) :=
+  stream_correct_eof hg hr root hroot hA.canSound min max
+
+/-- without a hook the two notions of acceptance coincide, and `Contract` gives `ContractEof`:
+`C04_search_eof` specialises to `C04_search` -/
+theorem C04_eof_conservative (A : Aut σ) (hA : Contract A) :
+    A.acceptsEof = A.accepts ∧ ContractEof A := by
+  refine ⟨stream_correct_eof_conservative A hA.noEof, ⟨fun x hx w => ?_⟩⟩
+  have h := hA.canSound x hx w
+  refine ⟨h, ?_⟩
+  unfold Aut.eofMatch
+  rw [hA.noEof]
+  exact h
+
+/-- one step of the real loop with a hooked automaton IS one step with the hook-free lifting
+(no invariant, every state): the simulation on which `C04_search_eof` rests -/
+theorem C04_eof_step (A : Aut σ) (root : Nat) (s' : SState N (σ × Bool)) :
+    streamStep acc A root (projS s') = projRes (streamStep acc (eofLift A) root s') :=
+  streamStep_proj acc A root s'
+
+/-- END TO END with a hook, on the bytes of the file a builder writes -/
+theorem C04_file_eof (rows cols ty : Nat) (hty : ty < 2^64) (kvs : KV) (hs : SortedKV kvs)
+    (hv : ∀ kv ∈ kvs, kv.2 < 2^64) (hn : kvs.length < 2^64) :
+    ∃ s bytes, insertAll (BState.new rows cols) kvs = .ok s ∧ s.fileBytes ty = .ok bytes ∧
+      (bytes.length < 2^64 →
+        ∃ m, fstNew (Src.ofList bytes) = .ok m ∧
+          ∀ {σ : Type} (A : Aut σ), ContractEof A → ∀ (min max : Bound),
+            ∃ s0, streamNew (byteAccess 3 (Src.ofList bytes)) A m.rootAddr min max = some s0 ∧
+            ∃ N, ∀ fuel, N ≤ fuel →
+              streamCollect (byteAccess 3 (Src.ofList bytes)) A m.rootAddr fuel s0 [] =
+                some ((kvs.filter fun kv =>
+                        lowerOK min kv.1 && upperOK max kv.1 && A.acceptsEof kv.1).map
+                      fun kv => (kv.1, kv.2, A.run A.start kv.1))) := by
+  obtain ⟨s, bytes, e1, e2, h⟩ := C04_file rows cols ty hty kvs hs hv hn
+  refine ⟨s, bytes, e1, e2, fun hsz => ?_⟩
+  obtain ⟨m, hm, hall⟩ := h hsz
+  refine ⟨m, hm, fun {σ} A hA min max => ?_⟩
+  have hCan' : ∀ x, (eofLift A).canMatch x = false →
+      ∀ w, (eofLift A).isMatch ((eofLift A).run x w) = false := by
+    intro x hx w
+    obtain ⟨x, b⟩ := x
+    rw [eofLift_run]
+    have := hA.canSound x hx w
+    simp only [eofLift]
+    split
+    · exact this.2
+    · exact this.1
+  obtain ⟨s0', hnew, M, hM⟩ := hall (eofLift A) (fun _ => rfl) hCan' min max
+  refine ⟨projS s0', by rw [streamNew_proj, hnew]; rfl, M, fun fuel hf => ?_⟩
+  have h := streamCollect_proj (byteAccess 3 (Src.ofList bytes)) A m.rootAddr fuel s0' []
+  simp only [List.map_nil] at h
+  rw [h, hM fuel hf]
+  simp only [Option.map_some, List.map_map, eofLift_accepts]
+  congr 1
+  apply List.map_congr_left
+  intro kv _
+  simp [prItem, eofLift_run_start]
+
+/-- non-vacuity: an automaton with a hook AND a pruning state meets `ContractEof`, and the hook
+changes what is accepted -/
+def hookPrune : Aut Nat where
+  start := 0
+  isMatch := fun x => x == 7
+  canMatch := fun x => x != 9
+  willAlwaysMatch := fun _ => false
+  accept := fun x b => if x == 9 then 9 else if b == 0 then 9 else if x < 3 then x + 1 else x
+  acceptEof := fun x => if x == 2 then some 7 else none
+
+theorem hookPrune_run9 (w : Key) : hookPrune.run 9 w = 9 := by
+  induction w with
+  | nil => rfl
+  | cons b w ih => simpa [Aut.run, hookPrune] using ih
+
+example : ContractEof hookPrune := by
+  refine ⟨fun x hx w => ?_⟩
+  have hx9 : x = 9 := by simpa [hookPrune] using hx
+  subst hx9
+  rw [hookPrune_run9]
+  decide
+example : hookPrune.acceptsEof [1, 2] = true ∧ hookPrune.accepts [1, 2] = false ∧
+    hookPrune.acceptsEof [1, 0, 2] = false := by decide
 
 /-- it suffices that the hint is sound on states reachable from the start state -/
 theorem C04_search_reachable (A : Aut σ) (hEof : ∀ x, A.acceptEof x = none)
